@@ -727,7 +727,7 @@ class Run:
             mine = ["err", r[1], r[2] if len(r) > 2 else ""]
         if mine[:2] != fresh[:2] or (mine[0] == "ok" and mine != fresh):
             self.note("arithmetic differs from a fresh database")
-            self.bad(step, "arithmetic on cached quantities behaves as on a fresh database", operation=o,
+            self.bad(step, FRESH_CLAUSE, operation=o,
                      operands=[repr(x) for x in (a, b)],
                      operand_cells=[None if x == "e" else [list(c) for c in _cells(x)] for x in (a, b)],
                      here=mine, fresh_database=fresh)
@@ -1035,7 +1035,7 @@ def oracle(c, ctx):
     except Exception as e:
         return dict(clause="history runner raised", error=repr(e))
     if r.viol:
-        first = [v for v in r.viol if v["clause"].startswith("arithmetic on cached quantities")] or r.viol
+        first = [v for v in r.viol if v["clause"] == FRESH_CLAUSE] or r.viol
         v = dict(first[0])
         v["history_prefix"] = ops[: v["step"] + 1]
         return v
@@ -1054,7 +1054,24 @@ def search(ctx):
         yield make_case(gen_history(rng, 30))
 
 
+FRESH_CLAUSE = "arithmetic on cached quantities behaves as on a fresh database"
+
+
 def shrink(case, failure, ctx):
+    # an operation that fails (or gives another result) only because of what is cached is the more telling
+    # failing input: if the found one is of another kind, try the short tuple-form histories first
+    if failure.get("clause") != FRESH_CLAUSE:
+        pool = exhaustive_pool()
+        done = False
+        for a in range(len(pool)):
+            for b in range(len(pool)):
+                cand = make_case(layout([pool[4], pool[a], pool[b]]))
+                f = oracle(cand, ctx)
+                if f and f.get("clause") == FRESH_CLAUSE:
+                    case, failure, done = cand, f, True
+                    break
+            if done:
+                break
     ops = list(case["_t"]["ops"])
     step = failure.get("step")
     if isinstance(step, int) and step + 1 < len(ops):
